@@ -710,7 +710,7 @@ func (c *c06Chain) issue(id string, op *c06Op) *c06Info {
 	info.signedLen = len(w.body)
 
 	// JWT
-	if op.JWTMode != "" {
+	if op.JWTMode != "" && cfg.JWT != nil {
 		sec, _ := hex.DecodeString(op.JWTSecret)
 		claims := [][2]string{{"sub", `"c06"`}}
 		is := issuer.Unix()
@@ -754,7 +754,7 @@ func (c *c06Chain) issue(id string, op *c06Op) *c06Info {
 	}
 
 	// Basic
-	if op.BasicOn {
+	if op.BasicOn && cfg.Basic != nil {
 		user, pass := op.BasicUser, op.BasicPass
 		switch op.Mut {
 		case "basic-pass-byte":
@@ -1414,7 +1414,7 @@ func (c *c06Chain) evaluate(id string, op *c06Op, info *c06Info, rec *c06Rec, re
 		case m == "signature" && bodyCovered && len(info.sentBody) > 0 && strings.Contains(rec.tags, "verification failed"):
 			class = "C06.sig-body-not-covered"
 		case m == "basic" && strings.Contains(op.BasicPass, ":"):
-			class = "C06.basic-password-colon"
+			class = "C06.basic-password-colon-rejected"
 		case m == "headers" && firstOnly:
 			class = "C06.header-rule-first-value-only"
 		}
@@ -1423,9 +1423,9 @@ func (c *c06Chain) evaluate(id string, op *c06Op, info *c06Info, rec *c06Rec, re
 		class := "C06.invalid-accepted." + why
 		switch {
 		case c06BodyMuts[why]:
-			class = "C06.sig-body-not-covered"
+			class = "C06.sig-body-swap-accepted"
 		case why == "basic-colon-suffix":
-			class = "C06.basic-password-colon"
+			class = "C06.basic-colon-suffix-accepted"
 		}
 		r.Violate(class, "%s: request that must be rejected (%s) was let through; %s\n%s", id, why, at, desc)
 	}
@@ -1709,6 +1709,9 @@ func c06Shrink(sci interface{}) []interface{} {
 		return n
 	}
 	cfgEdits := []func(*c06Cfg) bool{
+		func(c *c06Cfg) bool { ok := c.JWT != nil; c.JWT = nil; return ok },
+		func(c *c06Cfg) bool { ok := c.Sig != nil; c.Sig = nil; return ok },
+		func(c *c06Cfg) bool { ok := c.Basic != nil; c.Basic = nil; return ok },
 		func(c *c06Cfg) bool { ok := c.Seg != 0; c.Seg = 0; return ok },
 		func(c *c06Cfg) bool { ok := c.OffsetUs != 0; c.OffsetUs = 0; return ok },
 		func(c *c06Cfg) bool { ok := c.DelayUs != 0; c.DelayUs = 0; return ok },
